@@ -5,8 +5,8 @@ from common import Fr, enc_q, dec_q, close, rng
 import gmgen
 
 LEAN_MODULE = 'PGM.Properties.C02'
-LEAN_EXTRA = ['PGM.Properties.C02G']
-TRANSLATORS = ('py2gm', 'py2gmq')   # project (cached / uncached), krondot of graphical_model.py -> Generated/GraphicalModelQG.lean (imports GraphicalModelG.lean)
+LEAN_EXTRA = ['PGM.Properties.C02G', 'PGM.Properties.C02E']
+TRANSLATORS = ('py2gm', 'py2gmq', 'py2jt', 'py2gminit')   # project (cached / uncached), krondot, calculate_many_marginals of graphical_model.py -> Generated/GraphicalModelQG.lean (imports GraphicalModelG.lean); py2jt + py2gminit: junction_tree.py, GraphicalModel.__init__ -> JunctionTreeG / GraphicalModelInitG.lean (C02E: the query paths end to end on the generated __init__)
 TRUSTED = ['Lean 4.33 kernel', 'axioms: propext, Classical.choice, Quot.sound',
            'hand model PGM/Model/GM.lean (variable elimination in both spaces, project, krondot, calculate_many_marginals, datavector) tied to src/mbi/graphical_model.py by this correspondence run',
            'networkx floyd_warshall_predecessor_and_distance modelled by its contract on trees (BFS predecessor table)',
